@@ -7,6 +7,8 @@ ROOT = os.path.dirname(os.path.dirname(os.path.abspath(__file__)))
 
 # property id -> list of harness names (directories under /verif/bounded)
 HARNESSES = {
+    "C11": ["keysetid"],
+    "C09": ["keysetid"],
     "C14": ["token_roundtrip"],
     "C12": ["hvs"],
     "C13": ["hvs"],
